@@ -853,7 +853,7 @@ func c08Watchdog(sc *c08scenario) time.Duration {
 func parseC08(args []string) *c08scenario {
 	// (the 13th field, the flavour of the context, is optional: case lines written before it existed have 12)
 	if len(args) != 12 && len(args) != 13 {
-		panic("bad scenario arity")
+		panic(badCase("bad scenario arity"))
 	}
 	sc := &c08scenario{}
 	if len(args) == 13 {
@@ -864,13 +864,13 @@ func parseC08(args []string) *c08scenario {
 		case "cause":
 			sc.cause = true
 		default:
-			panic("bad context flavour")
+			panic(badCase("bad context flavour"))
 		}
 	}
 	sc.req = &radius.Packet{Code: radius.Code(atoi(args[0])), Identifier: byte(atoi(args[1])), Secret: unhx(args[3])}
 	a := unhx(args[2])
 	if len(a) != 16 || atoi(args[1]) < 0 || atoi(args[1]) > 255 {
-		panic("bad packet fields")
+		panic(badCase("bad packet fields"))
 	}
 	copy(sc.req.Authenticator[:], a)
 	sc.req.Attributes = toAttributes(parseAVPs(args[4]))
@@ -886,11 +886,11 @@ func parseC08(args []string) *c08scenario {
 	case sc.peer == "nodial" && len(pf) == 2:
 		sc.variant = atoi(pf[1])
 		if sc.variant < 0 || sc.variant >= len(c08Nodial) {
-			panic("bad peer")
+			panic(badCase("bad peer"))
 		}
 	case (sc.peer == "silent" || sc.peer == "usilent" || sc.peer == "closed" || sc.peer == "flood" || sc.peer == "vanish" || sc.peer == "deaf") && len(pf) == 1:
 	default:
-		panic("bad peer")
+		panic(badCase("bad peer"))
 	}
 	cf := strings.Split(args[9], ":")
 	sc.cancel = cf[0]
@@ -902,10 +902,10 @@ func parseC08(args []string) *c08scenario {
 		sc.delay = time.Duration(atoi(cf[1])) * time.Millisecond
 	case (sc.cancel == "never" || sc.cancel == "pre" || sc.cancel == "predeadline") && len(cf) == 1:
 	default:
-		panic("bad cancel")
+		panic(badCase("bad cancel"))
 	}
 	if sc.k < 0 || sc.g < 0 || sc.m < 0 || sc.k > 8 || sc.g > 64 || sc.m > 64 || sc.j < 0 || sc.j > 8 || sc.delay < 0 || sc.delay > 2*time.Second {
-		panic("bad scenario numbers")
+		panic(badCase("bad scenario numbers"))
 	}
 	sc.reply, sc.garbage = unhx(args[10]), unhx(args[11])
 	return sc
